@@ -29,12 +29,22 @@ pub fn vcf_text(cs: &CallSet) -> Vec<u8> {
     let mut contigs: Vec<&str> = Vec::new();
     for r in &cs.recs { if !contigs.contains(&r.contig.as_str()) { contigs.push(&r.contig); } }
     if contigs.is_empty() { contigs.push("1"); }
-    for c in &contigs { s.push_str(&format!("##contig=<ID={c},length=100000000>\n")); }
+    // `wide` in 2000..2999: every dictionary line carries an `IDX` attribute as bcftools / htslib write them — here with the contig indices
+    // in REVERSE order of appearance, FORMAT/GT ahead of the INFO lines with the highest index, the INFO indices descending
+    let idxmode = cs.wide >= 2000;
+    if idxmode {
+        let ni = cs.wide - 2000;
+        s.push_str("##FILTER=<ID=PASS,Description=\"All filters passed\",IDX=0>\n");
+        for (j, c) in contigs.iter().enumerate() { s.push_str(&format!("##contig=<ID={c},length=100000000,IDX={}>\n", contigs.len() - 1 - j)); }
+        s.push_str(&format!("##FORMAT=<ID=GT,Number=1,Type=String,Description=\"Genotype\",IDX={}>\n", ni + 1));
+        for k in 0..ni { s.push_str(&format!("##INFO=<ID=X{k},Number=1,Type=Integer,Description=\"d{k}\",IDX={}>\n", ni - k)); }
+    }
+    if !idxmode { for c in &contigs { s.push_str(&format!("##contig=<ID={c},length=100000000>\n")); } }
     // `wide` dummy INFO definitions ahead of FORMAT/GT push GT's index in the BCF string dictionary up (past 127: a 16-bit key)
     // (`wide` >= 1000: the `wide - 1000` definitions FOLLOW the FORMAT/GT line instead — GT then has dictionary index 1 whatever comes later)
-    let (before, after) = if cs.wide >= 1000 { (0, cs.wide - 1000) } else { (cs.wide, 0) };
+    let (before, after) = if idxmode { (0, 0) } else if cs.wide >= 1000 { (0, cs.wide - 1000) } else { (cs.wide, 0) };
     for k in 0..before { s.push_str(&format!("##INFO=<ID=X{k},Number=1,Type=Integer,Description=\"d{k}\">\n")); }
-    s.push_str("##FORMAT=<ID=GT,Number=1,Type=String,Description=\"Genotype\">\n");
+    if !idxmode { s.push_str("##FORMAT=<ID=GT,Number=1,Type=String,Description=\"Genotype\">\n"); }
     for k in 0..after { s.push_str(&format!("##INFO=<ID=X{k},Number=1,Type=Integer,Description=\"d{k}\">\n")); }
     if cs.extras {
         s.push_str("##INFO=<ID=DP,Number=1,Type=Integer,Description=\"Depth\">\n");
@@ -61,6 +71,8 @@ pub fn vcf_text(cs: &CallSet) -> Vec<u8> {
         let fmt = if nogt { "DP" } else if cs.extras { "GT:DP:GQ" } else { "GT" };
         match r.corrupt.as_deref() {
             Some("badpos") => { s.push_str(&format!("{}\tx{}\t.\t{}\t{}\t.\t.\t{}\t{}", r.contig, r.pos, ref_allele(i), alt, info, fmt)); }
+            // a position beyond the machine word: refused ("invalid position")
+            Some("bigpos") => { s.push_str(&format!("{}\t18446744073709551616\t.\t{}\t{}\t.\t.\t{}\t{}", r.contig, ref_allele(i), alt, info, fmt)); for _ in 0..cs.cols.len() { s.push_str("\t0/1"); } s.push('\n'); continue; }
             Some("trunc") => { s.push_str(&format!("{}\t{}\t.\tA\n", r.contig, r.pos)); continue; }
             // a record that is complete but for ONE site-level column the VCF grammar refuses (ID / QUAL / FILTER / INFO): the reader
             // reports the error at this site; the sample columns that follow are well-formed and differ from the previous record's
@@ -187,11 +199,21 @@ pub fn raw_bcf_simple(cs: &CallSet) -> Option<Vec<u8>> {
     let mut contigs: Vec<&str> = Vec::new();
     for r in &cs.recs { if !contigs.contains(&r.contig.as_str()) { contigs.push(&r.contig); } }
     if contigs.is_empty() { contigs.push("1"); }
-    let mut text = String::from("##fileformat=VCFv4.3\n##FILTER=<ID=PASS,Description=\"All filters passed\">\n");
-    for c in &contigs { text.push_str(&format!("##contig=<ID={c},length=100000000>\n")); }
-    let (before, after) = if cs.wide >= 1000 { (0, cs.wide - 1000) } else { (cs.wide, 0) };
+    let idxmode = cs.wide >= 2000;
+    let mut text = String::from("##fileformat=VCFv4.3\n");
+    if idxmode {
+        let ni = cs.wide - 2000;
+        text.push_str("##FILTER=<ID=PASS,Description=\"All filters passed\",IDX=0>\n");
+        for (j, c) in contigs.iter().enumerate() { text.push_str(&format!("##contig=<ID={c},length=100000000,IDX={}>\n", contigs.len() - 1 - j)); }
+        text.push_str(&format!("##FORMAT=<ID=GT,Number=1,Type=String,Description=\"Genotype\",IDX={}>\n", ni + 1));
+        for k in 0..ni { text.push_str(&format!("##INFO=<ID=X{k},Number=1,Type=Integer,Description=\"d{k}\",IDX={}>\n", ni - k)); }
+    } else {
+        text.push_str("##FILTER=<ID=PASS,Description=\"All filters passed\">\n");
+        for c in &contigs { text.push_str(&format!("##contig=<ID={c},length=100000000>\n")); }
+    }
+    let (before, after) = if idxmode { (0, 0) } else if cs.wide >= 1000 { (0, cs.wide - 1000) } else { (cs.wide, 0) };
     for k in 0..before { text.push_str(&format!("##INFO=<ID=X{k},Number=1,Type=Integer,Description=\"d{k}\">\n")); }
-    text.push_str("##FORMAT=<ID=GT,Number=1,Type=String,Description=\"Genotype\">\n");
+    if !idxmode { text.push_str("##FORMAT=<ID=GT,Number=1,Type=String,Description=\"Genotype\">\n"); }
     for k in 0..after { text.push_str(&format!("##INFO=<ID=X{k},Number=1,Type=Integer,Description=\"d{k}\">\n")); }
     text.push_str("#CHROM\tPOS\tID\tREF\tALT\tQUAL\tFILTER\tINFO\tFORMAT");
     for c in &cs.cols { text.push('\t'); text.push_str(c); }
@@ -205,7 +227,8 @@ pub fn raw_bcf_simple(cs: &CallSet) -> Option<Vec<u8>> {
         let alts = ["C", "G", "T", "CA", "CAA", "CAAA", "CT", "CTT", "CTTT", "CG", "CGG", "CGGG"];
         let nalt = ma.max(1).min(alts.len());
         let mut shared = Vec::new();
-        shared.extend_from_slice(&(contigs.iter().position(|c| *c == r.contig)? as i32).to_le_bytes());
+        let cpos = contigs.iter().position(|c| *c == r.contig)?;
+        shared.extend_from_slice(&((if idxmode { contigs.len() - 1 - cpos } else { cpos }) as i32).to_le_bytes());
         shared.extend_from_slice(&((r.pos as i32) - 1).to_le_bytes());
         shared.extend_from_slice(&(ref_allele(i).len() as i32).to_le_bytes());
         shared.extend_from_slice(&0x7F80_0001u32.to_le_bytes());
@@ -216,7 +239,7 @@ pub fn raw_bcf_simple(cs: &CallSet) -> Option<Vec<u8>> {
         for a in &alts[..nalt] { typed_string(&mut shared, a.as_bytes()); }
         shared.push(0x00);                                // FILTER: empty vector
         let mut indiv = Vec::new();
-        typed_int_small_or_16(&mut indiv, 1 + before);    // FORMAT key: GT's dictionary index (PASS = 0, then the INFO ids), in the smallest integer type that holds it
+        typed_int_small_or_16(&mut indiv, if idxmode { cs.wide - 2000 + 1 } else { 1 + before });    // FORMAT key: GT's dictionary index (PASS = 0, then the INFO ids), in the smallest integer type that holds it
         let enc: Vec<Vec<i32>> = r.gts.iter().map(|g| gt_values(g)).collect::<Option<_>>()?;
         let maxlen = enc.iter().map(|e| e.len()).max().unwrap_or(1);
         // the smallest integer type that holds every value of the record (as bcftools and htslib choose it): int8 up to allele 62,
